@@ -22,11 +22,78 @@ def decide_equal(ctx, rule, key, where, code, spec, what=""):
     if code_a == spec_a:
         ctx.ok(rule, key, where, f"{what} == {T.show(spec_a)[:300]}")
         return True
+    # second chance: a call of a small pure function of the package and its body are the same value (a helper inlined at one call
+    # site, or a new helper wrapped around a sub-expression): unfold such calls on both sides and compare again
+    cu, su = T.alpha(unfold(ctx.repo, code)), T.alpha(unfold(ctx.repo, spec))
+    if cu == su:
+        ctx.ok(rule, key, where, f"{what} == {T.show(spec_a)[:300]} (after unfolding pure helpers)")
+        return True
     op = opaque_parts(code)
     if op:
         raise AnalysisError(f"{where}: [{rule}] {key}: value not normalisable ({T.show(op[0])[:120]}) - re-bind the anchor")
     ctx.violation(rule, key, where, f"{what} is {T.show(code_a)[:400]}  but the statement requires {T.show(spec_a)[:400]}")
     return False
+
+
+_pure_cache = {}
+
+
+def pure_body(repo, qualname):
+    """(params, value term) of a package function that only computes and returns a value (no stores, deletions, raises, yields,
+    mutator calls; return value fully normalised) - None otherwise"""
+    key = (id(repo), qualname)
+    if key in _pure_cache:
+        return _pure_cache[key]
+    out = None
+    f = repo.functions.get(qualname)
+    if f is not None and f.parent is None:
+        try:
+            sm = sym.summarize(repo, qualname)
+            params = set(f.params)
+
+            def local_recv(e):
+                n = e.node.func.value if isinstance(e.node, ast.Call) and isinstance(e.node.func, ast.Attribute) else None
+                return isinstance(n, ast.Name) and n.id not in params
+            bad = [e for e in sm.events if e.kind in ("del", "raise", "yield", "assert") or
+                   (e.kind == "store" and not (isinstance(e.attr, str) and e.attr.startswith("$"))) or
+                   (e.kind == "call" and isinstance(e.fname, tuple) and e.fname[0] == "m" and e.fname[1] in sym.MUTATORS and not local_recv(e))]
+            r = sm.ret()
+            if not bad and sm.returns and not opaque_parts(r) and not f.node.args.vararg and not f.node.args.kwarg:
+                out = (list(f.params), r, f)
+        except AnalysisError:
+            out = None
+    _pure_cache[key] = out
+    return out
+
+
+def unfold(repo, t, depth=2):
+    """replace calls of pure package functions by their bodies (bounded depth)"""
+    if depth == 0:
+        return t
+
+    def f(x):
+        if x[0] == "call" and isinstance(x[1], str) and x[1] in repo.functions:
+            pb = pure_body(repo, x[1])
+            if pb is None:
+                return None
+            params, body, fn = pb
+            args = list(x[2])
+            if fn.cls is not None and fn.is_static and len(args) == len(params) + 1:
+                args = args[1:]
+            kw = dict(x[3]) if x[3] else {}
+            bind = {}
+            for i, p_ in enumerate(params):
+                if i < len(args):
+                    bind[T.sym(p_)] = args[i]
+                elif p_ in kw:
+                    bind[T.sym(p_)] = kw[p_]
+                else:
+                    return None          # a defaulted parameter: leave the call alone
+            if len(args) > len(params) or any(k not in params for k in kw):
+                return None
+            return unfold(repo, T.substitute(body, bind), depth - 1)
+        return None
+    return T.transform(t, f)
 
 
 def guard_implies(event, cond):
